@@ -180,6 +180,35 @@ func (env *Env) callSpec(x *ast.CallExpr, fn *types.Func, spec *FuncSpec, recvEx
 	sig := fn.Type().(*types.Signature)
 	recvName, pnames, _, rnames := specParamNames(spec.Decl)
 	ord := c.callOrdinal(x, strings.TrimPrefix(spec.Key, c.spec.Pkg+"."))
+	// ghost statements, lemma uses and assertions attached to EVERY call of this callee ("before call F#*"): they can
+	// refer to the call's arguments as call.arg0, call.arg1, ... and so do not depend on the order of the call sites
+	if star := "before call " + ord[:strings.LastIndex(ord, "#")] + "#*"; c.hasSite(star) {
+		save := env.nosafe
+		env.nosafe = true
+		var bound []string
+		func() {
+			defer func() {
+				if r := recover(); r != nil {
+					if _, ok := r.(unsupportedErr); !ok {
+						panic(r)
+					}
+				}
+			}()
+			for i, a := range x.Args {
+				v := env.eval(a)
+				if v.Loc == nil && v.T.S != "" {
+					k := fmt.Sprintf("call.arg%d", i)
+					env.st.spec[k] = Val{T: v.T, GoT: v.GoT, Const: v.Const}
+					bound = append(bound, k)
+				}
+			}
+		}()
+		env.nosafe = save
+		c.runGhosts(env.st, star, x.Pos())
+		for _, k := range bound {
+			delete(env.st.spec, k)
+		}
+	}
 	c.runGhosts(env.st, "before call "+ord, x.Pos())
 
 	type argInfo struct {
@@ -443,6 +472,26 @@ func (env *Env) callSpec(x *ast.CallExpr, fn *types.Func, spec *FuncSpec, recvEx
 		env.writeLoc(w.loc, w.val, x.Pos(), false)
 	}
 	c.runGhosts(env.st, "after call "+ord, x.Pos())
+	// items attached to every call of this callee ("after call F#*"): the arguments as evaluated before the call
+	if star := "after call " + ord[:strings.LastIndex(ord, "#")] + "#*"; c.hasSite(star) {
+		var bound []string
+		ai := 0
+		for _, a := range args {
+			if a.expr == nil || (sig.Recv() != nil && recvExpr != nil && a.expr == recvExpr) {
+				continue
+			}
+			if a.val.Loc == nil && a.val.T.S != "" {
+				k := fmt.Sprintf("call.arg%d", ai)
+				env.st.spec[k] = Val{T: a.val.T, GoT: a.val.GoT, Const: a.val.Const}
+				bound = append(bound, k)
+			}
+			ai++
+		}
+		c.runGhosts(env.st, star, x.Pos())
+		for _, k := range bound {
+			delete(env.st.spec, k)
+		}
+	}
 	// crash points: after every effect on ghost state that a crash invariant mentions, the invariant must hold
 	for i, ci := range c.spec.CrashInv {
 		touched := false
